@@ -2,7 +2,7 @@
    Property theorems only; proofs are in Proofs/Schema*.v.
    Model: Schema/Sem.v (engines), Schema/Conform.v (specification), Schema/Types.v (wf). *)
 Require Import IP.Base.Bytes IP.DM.Value IP.Schema.Types IP.Schema.View IP.Schema.Conform IP.Schema.Sem
-  IP.Proofs.SchemaBuild IP.Proofs.SchemaRepr IP.Proofs.SchemaRefute IP.Proofs.SchemaTop.
+  IP.Proofs.SchemaBuild IP.Proofs.SchemaRepr IP.Proofs.SchemaRefute IP.Proofs.SchemaTop IP.Proofs.SchemaCopy IP.Schema.Perm IP.Proofs.SchemaPerm.
 
 (* every strategy: the representation view is the canonical view of the specified representation, its
    data is the specified representation, and the type-level view is the specified one.
@@ -26,6 +26,14 @@ Theorem C08_two_routes : forall e t v, (e = Bind \/ e = Gen) -> wf t = true -> h
 Proof. exact two_routes_top. Qed.
 Print Assumptions C08_two_routes.
 
+(* the literal form: copy either view of the node (datamodel.Copy skips absent struct fields) and feed
+   the builder of that level *)
+Theorem C08_two_routes_views : forall e t v, (e = Bind \/ e = Gen) -> wf t = true -> has_type t v = true ->
+  (exists d, ov_copy (type_view e qoff t v) = Some d /\ tbuild e qoff t d = BOk v) /\
+  (exists d, ov_copy (repr_view e qoff t v) = Some d /\ rbuild e qoff t d = BOk v).
+Proof. exact two_routes_views. Qed.
+Print Assumptions C08_two_routes_views.
+
 (* bytes, over any codec, for representations the codec reproduces exactly (maps in canonical order) *)
 Theorem C08_bytes_partial : forall (encode : dm -> option bytes) (decode : bytes -> option dm) e t v bs,
   (e = Bind \/ e = Gen) -> wf t = true -> has_type t v = true ->
@@ -36,15 +44,30 @@ Theorem C08_bytes_partial : forall (encode : dm -> option bytes) (decode : bytes
 Proof. exact bytes_top. Qed.
 Print Assumptions C08_bytes_partial.
 
-(* not closed: the same when the codec reorders map entries (typed maps, struct fields, Any content):
-   the rebuilt value is then v up to typed-map entry order and the second encoding equals the first *)
-Definition C08_full : Prop :=
-  forall (encode : dm -> option bytes) (decode : bytes -> option dm) (canon : dm -> dm) e t v bs,
-    (forall d b, encode d = Some b -> decode b = Some (canon d)) ->
-    (forall d, encode (canon d) = encode d) ->
-    (e = Bind \/ e = Gen) -> wf t = true -> has_type t v = true ->
+(* bytes, in full: over any codec that gives a tree back up to the order of map entries ([peq]) and whose
+   encoding of a value does not depend on that order (for dag-cbor these two hypotheses are C02_roundtrip
+   and C02_order_independent): encode the representation, decode, feed the representation builder — the
+   result is v up to the entry order of typed maps and of Any content ([veq]), it is a value of the type,
+   and its representation encodes to the same bytes *)
+Theorem C08_bytes : forall (encode : dm -> option bytes) (decode : bytes -> option dm),
+  (forall d bs, dm_wf d = true -> encode d = Some bs -> exists d', decode bs = Some d' /\ peq d d') ->
+  (forall d d', dm_wf d = true -> peq d d' -> encode d = encode d') ->
+  forall e t v bs, (e = Bind \/ e = Gen) -> wf t = true -> has_type t v = true ->
     encode (repr_spec t v) = Some bs ->
-    exists v', rbuild e qoff t (canon (repr_spec t v)) = BOk v' /\ encode (repr_spec t v') = Some bs.
+    exists d' v', decode bs = Some d' /\ rbuild e qoff t d' = BOk v' /\ veq v v' /\ has_type t v' = true /\
+                  repr e qoff t v' = Some (repr_spec t v') /\ encode (repr_spec t v') = Some bs.
+Proof. exact bytes_full. Qed.
+Print Assumptions C08_bytes.
+
+(* the statement about the unchanged tree is false (witnesses below) *)
+Definition C08_full : Prop :=
+  forall t v, wf t = true -> has_type t v = true ->
+    repr_view Bind pinned t v = ov_of_dm (repr_spec t v) /\ rbuild Bind pinned t (repr_spec t v) = BOk v.
+Theorem C08_full_refuted : ~ C08_full.
+Proof.
+  intros H. destruct refuted_listpairs_iter_index as [Hwf [Hh Hn]]. exact (Hn (proj1 (H _ _ Hwf Hh))).
+Qed.
+Print Assumptions C08_full_refuted.
 
 (* the hypotheses are satisfiable, and the theorems compute on a deep example *)
 Theorem C08_example : has_type tBig vBig = true /\ wf tBig = true /\
